@@ -126,6 +126,11 @@ def gen_scenario(rng, i, lay):
             sc["exc"] = {"error": e, "args": ea, "kwargs": ek}
             if sc["fault1"] is None and which >= 0.45:
                 sc["fault2"] = gen_fault(rng, ERR_URIS, e)
+            if rng.random() < 0.7:
+                # the caller has exception classes registered for the error URI and for the URI a swap would use
+                f2 = sc["fault2"]
+                uris = [e] + ([f2["uri"]] if f2 and f2["t"] == "swap" else [])
+                sc["caller_reg"] = [[u, rng.choice(["kw", "kw", "plain", "noarg"])] for u in uris if rng.random() < 0.85]
     return sc
 
 
@@ -147,6 +152,16 @@ def exhaustive_scenarios(ck, lay):
             out.append(dict(base, kind="call", uri="com.myapp.proc1", fault2=fa, result={"args": [7], "kwargs": None, "progress": True}))
             out.append(dict(base, kind="error", uri="com.myapp.proc1", fault2=fa,
                             exc={"error": "com.myapp.error1", "args": [6], "kwargs": [["SECRET_detail", 7]]}))
+            out.append(dict(base, kind="error", uri="com.myapp.proc1", fault2=fa, caller_reg=[["com.myapp.error1", "kw"]],
+                            exc={"error": "com.myapp.error1", "args": [6], "kwargs": [["SECRET_detail", 7]]}))
+            for t in ("ser", "algo", "trunc", "extend"):
+                for ctor in ("kw", "noarg"):
+                    out.append(dict(base, kind="error", uri="com.myapp.proc1", fault2={"t": t}, caller_reg=[["com.myapp.error1", ctor]],
+                                    exc={"error": "com.myapp.error1", "args": [6], "kwargs": []}))
+            for ctor in ("kw", "plain", "noarg"):
+                out.append(dict(base, kind="error", uri="com.myapp.proc1", fault2={"t": "swap", "uri": "com.other.error"},
+                                caller_reg=[["com.other.error", ctor], ["com.myapp.error1", "kw"]],
+                                exc={"error": "com.myapp.error1", "args": [6], "kwargs": []}))
     return out
 
 
@@ -205,8 +220,18 @@ def cfault(f):
     return {"ser": "BadSerializer", "algo": "BadAlgo"}[f["t"]]
 
 
+CKIND = {"kw": "CKw", "plain": "CPlain", "noarg": "CNoArg"}
+
+
+def creg(sc):
+    reg = sc.get("caller_reg") or []
+    return (clist("(DefExplicit %s %s)" % (cN(10 + i), cstr(u)) for i, (u, _) in enumerate(reg)),
+            clist("(%s, %s)" % (cN(10 + i), CKIND[c]) for i, (_, c) in enumerate(reg)))
+
+
 def cout(o):
     if o[0] == "invoked": return "(XInvoked %s %s)" % (clist(cval(a) for a in o[1]), ckw(o[2]))
+    if o[0] == "class": return "(XClass %s %s %s)" % (cN(o[1]), clist(cval(a) for a in o[2]), ckw(o[3]))
     if o[0] == "failed" and isinstance(o[1], str): return "(XFailed %s)" % cstr(o[1])
     if o[0] == "ignored": return "XIgnored"
     if o[0] == "notsent": return "XNotSent"
@@ -241,9 +266,9 @@ def leg_terms(sc, legs):
         else:
             if sc.get("exc") and leg.get("error_uri") == sc["exc"]["error"] and legs[li - 1]["outcomes"][0][0][0] == "invoked":
                 x = sc["exc"]
-                l = "(LError %s %s %s (Some %s) (Some %s) %s)" % (B, A, cstr(x["error"]), clist(cval(a) for a in x["args"]), ckw(x["kwargs"]), cfault(sc["fault2"]))
+                l = "(LError %s %s %s (Some %s) (Some %s) %s %s %s)" % ((B, A, cstr(x["error"]), clist(cval(a) for a in x["args"]), ckw(x["kwargs"]), cfault(sc["fault2"])) + creg(sc))
             else:   # the reply to an INVOCATION that could not be decrypted
-                l = "(LError %s %s %s (Some [%s]) (Some []) %s)" % (B, A, cstr(leg["error_uri"]), cN(NOTE), cfault(sc["fault2"]))
+                l = "(LError %s %s %s (Some [%s]) (Some []) %s %s %s)" % ((B, A, cstr(leg["error_uri"]), cN(NOTE), cfault(sc["fault2"])) + creg(sc))
         out.append((li, "(%s, %s, %s)" % (l, enc, o)))
     return out
 
@@ -305,7 +330,11 @@ def judge(sc, res):
         altered = bool(fault) and leg["encrypted"] and not (fault["t"] == "swap" and env_uri == (sc["uri"] if name != "error" else leg.get("error_uri")))
         if altered:
             for o in outs:
-                if o[0] == "invoked":
+                if o[0] == "class":
+                    v.append((f"{where}/altered-payload-delivered/registered-class",
+                              f"after fault {fault} the call failed with an instance of the class registered for the envelope "
+                              f"error URI (class C{o[1]}, args {o[2]}, kwargs {o[3]}) instead of an explicit encryption error"))
+                elif o[0] == "invoked":
                     v.append((f"{where}/altered-payload-delivered/{fault['t']}",
                               f"after fault {fault} the application still received a payload: {o}"))
                 elif name != "publish_event" and not (o[0] == "failed" and o[1] in ENC_URIS):
@@ -315,7 +344,11 @@ def judge(sc, res):
         elif not fault and leg["encrypted"] and sbox != rbox:
             # wrong key / no key / no codec at the receiver
             for o in outs:
-                if o[0] == "invoked":
+                if o[0] == "class":
+                    v.append((f"{where}/payload-delivered-without-matching-key/registered-class",
+                              f"the receiver has no matching key (sender secret {sbox}, receiver {rbox}) but the call failed "
+                              f"with an instance of the registered class: {o}"))
+                elif o[0] == "invoked":
                     v.append((f"{where}/payload-delivered-without-matching-key",
                               f"the receiver has no matching key (sender secret {sbox}, receiver {rbox}) but got {o}"))
                 elif name != "publish_event" and not (o[0] == "failed" and o[1] in ENC_URIS):
@@ -323,6 +356,8 @@ def judge(sc, res):
         elif not fault and leg["encrypted"] and sbox is not None and sbox == rbox:
             want = ["invoked", [a for a in sent[0]], [list(p) for p in sent[1]]]
             got = outs[0]
+            if got[0] == "class":               # surfaced as the class the caller registered for the URI: same payload expected
+                got = ["invoked", got[2], got[3]]
             if got[0] != "invoked" or got[1] != want[1] or sorted(map(tuple, got[2])) != sorted(map(tuple, want[2])):
                 v.append((f"{where}/roundtrip", f"sent {want}, the matching peer got {got}"))
     return v
@@ -341,7 +376,9 @@ def run(ck):
         "wrong originator public key, role-mismatched material, prefix mismatch, diverging inner prefix) x direction "
         "(publish/event, call/invocation, yield/result final+progressive, error) x fault (none, one flipped octet, URI "
         "swap, enc_serializer/enc_algo changed, truncated, extended) + EVERY single-octet alteration of one ciphertext per "
-        "direction (quick: mask 0x01, 1 layout; thorough: masks 0x01/0x80/0xff, 4 layouts x 2 serializers). "
+        "direction (quick: mask 0x01, 1 layout; thorough: masks 0x01/0x80/0xff, 4 layouts x 2 serializers); 70% of the error "
+        "scenarios (and a dedicated sweep under every fault kind) have exception classes (accept-anything / no-keywords / "
+        "no-arguments constructors) registered AT THE CALLER for the error URI and for the swapped URI. "
         "non-trivial = a leg whose message was encrypted; distinct = distinct (scenario, leg)")
     ck.extra_tb += [
         "ASSUMPTION aead_ok (premise of the integrity theorems): NaCl crypto_box is an authenticated cipher — it is "
@@ -387,6 +424,7 @@ def run(ck):
                 ck.bump("leg:" + leg["leg"]); ck.bump("fw:" + fw)
                 ck.bump("encrypted:" + str(leg["encrypted"]).lower())
                 for o, cnt in leg["outcomes"]:
+                    if o[0] == "class": ck.bump("error-surfaced-as-registered-class", cnt)
                     ck.bump("outcome:" + (o[0] if o[0] != "failed" else "failed:" + str(o[1]).rsplit(".", 1)[-1]), cnt)
                 if leg.get("n_alterations", 1) > 1:
                     flips += leg["n_alterations"]
